@@ -353,6 +353,29 @@ def regexp_rule(fx, scope, matcher=None):
     return out
 
 
+ORDER_EDIT = re.compile(r"(^|::)indexmap::(map::|set::)?Index(Map|Set)::<[^>]*>::(\w+)$")
+ORDER_BREAKING = re.compile(r"^(swap_remove\w*|swap_take|remove|remove_entry|remove_full|take|swap_indices|move_index|reverse|sort_unstable\w*|swap_remove_index)$")
+ORDER_KEEPING = re.compile(r"^(shift_remove\w*|shift_take|shift_insert|retain|pop|truncate|clear|drain|split_off|insert\w*|entry)$")
+
+
+def ordered_edit_rule(fx, scope, pat=ORDER_EDIT):
+    """[(fn, span, api, ok)] edits of IndexMap / IndexSet"""
+    out = []
+    for p, f in sorted(fx.fns.items()):
+        if f.derived or not scope(f):
+            continue
+        for bi, t in f.calls():
+            m = pat.search(t[1].get("d") or "")
+            if not m:
+                continue
+            name = m.group(4)
+            if ORDER_BREAKING.match(name):
+                out.append((f, t[6], name, False))
+            elif ORDER_KEEPING.match(name):
+                out.append((f, t[6], name, True))
+    return out
+
+
 def run(fx, ck, OP):
     comp = lambda g: g.file.startswith("src/compiler")
     ck.rule("R9.switch-default-last", "the loop emitting a switch's case tests emits no unconditional jump it does not patch itself (the default clause is reached only after every test failed)", floor=1)
@@ -386,6 +409,20 @@ def run(fx, ck, OP):
     for g in fx.fns.values():
         if not g.derived and g.file.endswith("builtins/array.rs"):
             ck.instance("R12.stable-sort", g.path, None, nontrivial=False)
+    # ---- R21 Map / Set keep insertion order: an insertion-ordered container is never edited with an operation that moves other entries
+    ck.rule("R21.ordered-collection-edits", "no order-breaking operation (swap_remove family, the deprecated remove/take aliases, swap_indices, move_index, reverse, "
+            "unstable sorts) is applied to an IndexMap / IndexSet", floor=2)
+    for f, sp, api, ok in ordered_edit_rule(fx, lambda g: g.file.startswith("src/")):
+        ck.instance("R21.ordered-collection-edits", "%s: %s" % (f.path, api), F.short_span(sp), ok=ok)
+        if not ok:
+            ck.finding("R21.ordered-collection-edits", "R21.ordered-collection-edits/%s/%s" % (f.parent if f.closure else f.path, api), F.short_span(sp),
+                       "`%s` edits an insertion-ordered collection with `%s`, which moves the last entry into the hole: `new Map([[a,1],[b,2],[c,3],[d,4]])` "
+                       "after `delete(b)` enumerates a, d, c (insertion order is a, c, d)" % (f.path, api))
+    ctl21 = F.load_fixture()
+    got21 = sorted((f.path.split("::")[-1], api, ok) for f, sp, api, ok in ordered_edit_rule(ctl21, lambda g: g.path.startswith("c01order::")))
+    if got21 != [("bad_delete", "swap_remove", False), ("good_delete", "shift_remove", True)]:
+        ck.closed_fail.append("R21 control failed: fixture reports %s" % got21)
+    ck.note("R21 controls: fixture bad_delete (swap_remove) reported, good_delete (shift_remove) silent")
     # ---- R13 string positions have units
     import strunits
     ck.rule("R13.string-units", "units check over string natives: no script number from a byte quantity (U-out), no byte-position API fed a character quantity (U-in), "
